@@ -3,14 +3,17 @@ package props
 import (
 	"fmt"
 	"sort"
+	"strings"
 	"testing"
 
 	"pgregory.net/rapid"
 
 	"github.com/tdakkota/docker-logql/verifharness/canon"
 	"github.com/tdakkota/docker-logql/verifharness/datagen"
+	"github.com/tdakkota/docker-logql/verifharness/dl"
 	"github.com/tdakkota/docker-logql/verifharness/eng"
 	"github.com/tdakkota/docker-logql/verifharness/evid"
+	"github.com/tdakkota/docker-logql/verifharness/fakedocker"
 	"github.com/tdakkota/docker-logql/verifharness/mockstore"
 	"github.com/tdakkota/docker-logql/verifharness/model"
 )
@@ -155,4 +158,132 @@ func c08Gen(t *rapid.T) LogCase {
 // TestC08 decides C08.
 func TestC08(t *testing.T) {
 	evid.Run(t, "C08", c08Gen, c08Check)
+}
+
+// C08DockerCase is a case of C08 over the product's own storage: several containers whose logs
+// are merged by the Docker backend, a log query and a limit.
+type C08DockerCase struct {
+	Ctrs  [][]dl.Line `json:"ctrs"`
+	Query string      `json:"query"`
+	Limit int         `json:"limit"`
+}
+
+// c08DockerCheck: the entries of the answer are the first min(L, N) matching records in time
+// order. Records of different containers may carry the same timestamp, so "the first L" is
+// decided on timestamps: the multiset of returned timestamps is the multiset of the L smallest,
+// and every entry is a record of the data, none of them more often than it was written.
+func c08DockerCheck(c C08DockerCase) (r evid.Result) {
+	d := &fakedocker.Daemon{}
+	type rec struct {
+		ts   int64
+		line string
+	}
+	var all []rec
+	avail := map[string]int{}
+	for i, lines := range c.Ctrs {
+		d.Containers = append(d.Containers, dl.Ctr(fmt.Sprintf("id%d", i), fmt.Sprintf("c%d", i), nil, lines))
+		for _, l := range lines {
+			if c.Query == `{} |= "#"` && !strings.Contains(l.Msg, "#") {
+				continue
+			}
+			all = append(all, rec{l.TS, l.Msg})
+			avail[fmt.Sprintf("%d %q", l.TS, l.Msg)]++
+		}
+	}
+	sort.Slice(all, func(a, b int) bool { return all[a].ts < all[b].ts })
+	n := len(all)
+	wantN := n
+	if c.Limit > 0 && c.Limit < n {
+		wantN = c.Limit
+	}
+	r.Class(true, fmt.Sprintf("containers=%d", len(c.Ctrs)))
+	r.Class(c.Limit > 0 && c.Limit < n, "limit-cuts")
+	r.NonTrivial = len(c.Ctrs) >= 3 && c.Limit > 0 && c.Limit < n
+	const base = int64(1700000000e9)
+	data, err := dl.Eval(d, c.Query, dl.Params{Start: base - 3600e9, End: base + 3600e9, Step: 1e9, Limit: c.Limit})
+	d.Done()
+	if err != nil {
+		r.Violation = evid.Viol("C08/docker-eval-error", "query %s (limit %d) failed: %v", c.Query, c.Limit, err)
+		return r
+	}
+	streams, err := canon.Streams(data)
+	if err != nil {
+		r.Violation = evid.Viol("C08/docker-result", "%v", err)
+		return r
+	}
+	var got []int64
+	for _, e := range canon.Flatten(streams) {
+		k := fmt.Sprintf("%d %q", e.TS, e.Line)
+		if avail[k] == 0 {
+			r.Violation = evid.Viol("C08/docker-unknown-entry", "query %s (limit %d) over %d containers returned (%d, %q), which no container wrote (that often)", c.Query, c.Limit, len(c.Ctrs), e.TS, e.Line)
+			return r
+		}
+		avail[k]--
+		got = append(got, int64(e.TS))
+	}
+	sort.Slice(got, func(a, b int) bool { return got[a] < got[b] })
+	if len(got) != wantN {
+		r.Violation = evid.Viol("C08/docker-count", "query %s (limit %d) over %d containers returned %d entries, want %d of %d", c.Query, c.Limit, len(c.Ctrs), len(got), wantN, n)
+		return r
+	}
+	for i, ts := range got {
+		if ts != all[i].ts {
+			r.Violation = evid.Viol("C08/docker-not-the-first", "query %s (limit %d) over %d containers: the %d returned timestamps (offsets from the base, ms) %v are not the %d smallest of %v",
+				c.Query, c.Limit, len(c.Ctrs), len(got), offsetsMs(got, base), wantN, offsetsMs(tsOf(all, func(x rec) int64 { return x.ts }), base))
+			return r
+		}
+	}
+	return r
+}
+
+func tsOf[T any](xs []T, f func(T) int64) []int64 {
+	out := make([]int64, len(xs))
+	for i, x := range xs {
+		out[i] = f(x)
+	}
+	return out
+}
+
+func offsetsMs(ts []int64, base int64) []int64 {
+	out := make([]int64, len(ts))
+	for i, t := range ts {
+		out[i] = (t - base) / 1e6
+	}
+	return out
+}
+
+func c08DockerGen(t *rapid.T) C08DockerCase {
+	var c C08DockerCase
+	const base = int64(1700000000e9)
+	n := rapid.SampledFrom([]int{1, 2, 3, 3, 4, 4, 5, 6, 8}).Draw(t, "containers")
+	span := rapid.SampledFrom([]int64{5, 20, 100}).Draw(t, "span")
+	total := 0
+	for i := 0; i < n; i++ {
+		m := rapid.IntRange(0, 6).Draw(t, "records")
+		tss := make([]int64, m)
+		for j := range tss {
+			tss[j] = base + rapid.Int64Range(0, span).Draw(t, "ts")*1e6
+		}
+		sort.Slice(tss, func(a, b int) bool { return tss[a] < tss[b] })
+		var lines []dl.Line
+		for j, ts := range tss {
+			msg := fmt.Sprintf("c%d#%d", i, j)
+			if rapid.IntRange(0, 4).Draw(t, "unmatched") == 0 {
+				msg = fmt.Sprintf("c%d-%d", i, j)
+			}
+			lines = append(lines, dl.Line{TS: ts, Msg: msg})
+		}
+		total += m
+		c.Ctrs = append(c.Ctrs, lines)
+	}
+	c.Query = rapid.SampledFrom([]string{`{}`, `{} |= "#"`, `{} | keep container`, `{} | drop container_id | label_format name=container`}).Draw(t, "query")
+	cands := []int{-1, 0, 1, 2, 3, total / 2, total - 1, total, total + 1}
+	c.Limit = rapid.SampledFrom(cands).Draw(t, "limit")
+	return c
+}
+
+// TestC08Docker decides the limit sentence of C08 over the Docker backend, where the records of
+// several containers are merged before the limit is applied.
+func TestC08Docker(t *testing.T) {
+	evid.Run(t, "C08", c08DockerGen, c08DockerCheck)
 }
